@@ -226,8 +226,13 @@ def dfs_callbacks_vcs() -> List[core.VC]:
                                    + ("dependency last top-level end -> start (top level only), span last_node -> start" if which == "enter_func" else "span last_node -> end (zero weight iff the call is blocking)")))
                 if goal_parts:
                     vcs.append(core.VC(f"{tag}.blocking_calls_weigh_zero", pre, z3.And(*goal_parts), "vc", fq, {}))
-                ok_attr = len(attrs) == (1 if has_last else 0) and all(a[1] is lep for a in attrs)
-                vcs.append(core.VC(f"{tag}.span_edge_attributed_with_previous_parent", [], z3.BoolVal(ok_attr), "vc", fq, {}))
+                ok_attr = len(attrs) == (1 if has_last else 0)
+                vcs.append(core.VC(f"{tag}.span_edge_is_attributed", [], z3.BoolVal(ok_attr), "vc", fq, {}, note="every span edge added here is handed to _attribute_edge (what it is attributed to is C10)"))
+                if which == "enter_func" and has_last and attrs:
+                    # C10 (case 4): an end -> start edge is attributed to the parent of the event being entered
+                    vcs.append(core.VC(f"{tag}.end_to_start_edge_attributed_to_parent_of_entered_event", pre + [z3.Not(last.fields["is_start"])],
+                                       to_z3(attrs[0][1]) == csnode.fields["parent"], "vc", fq, {},
+                                       note="the gap between a finished child and the next child lies inside the parent of the child being entered"))
                 for o in finals:
                     e2 = o.env
                     hy = [to_z3(c) for c in o.pc]
